@@ -13,6 +13,7 @@ import ast
 
 from ..cachesim import CacheSim
 from ..rawreads import raw_reads
+from ..preserve import COUNT_PRESERVING, check_surgery
 from ..cfg import CFG
 from ..effects import Effects
 from ..index import Index
@@ -20,12 +21,17 @@ from ..report import AnalysisError, key_of
 
 LEVEL = "other"
 
-COUNT_PRESERVING = {"transform", "fliplr", "negate"}
 
 # (key, data field, write kind) -> reason.  Frozen judgements confirmed by reading / measurement (DESIGN.md C01).
 INVARIANCE = {
     ("face_normals", "faces", "fliplr"): "transported: invert / apply_transform store the negated or mapped normals themselves (checked by R5)",
     ("vertex_normals", "faces", "fliplr"): "as face_normals",
+}
+
+
+TRANSPORT = {
+    "face_normals": "mapped by the linear part under the rotation + conformality guards (R5), negated by invert",
+    "vertex_normals": "as face_normals",
 }
 
 
@@ -134,6 +140,7 @@ def check(run):
     run.rule("R4", "query structures about a mesh (ray, proximity) are keyed on the mesh hash or read only mesh properties")
     run.rule("R5", "normals are carried across a transform only by the function's own store, guarded by presence in the cache and the rotation test")
     run.rule("R6", "companion keys: a key whose getter relies on a by-product store of another producer is kept or dropped together with it")
+    run.rule("R8", "a function that re-certifies memo entries verifies the cache before its first write of hashed data or lock entry")
     run.rule("R7", "memo entries are read from the raw dict (`x._cache.cache`) only after that cache was verified in the same function, with no write of x's hashed data in between")
 
     T = ix.cls("trimesh.base.Trimesh")
@@ -200,70 +207,11 @@ def check(run):
             continue
         if f.name in ("__init__", "__setstate__", "__new__"):
             continue  # construction: the cache object is created here, nothing can predate it
-        try:
-            sim = CacheSim(ef, f, cls if f.cls is not None else None, owner, hashed_data, rhs_kind)
-        except RecursionError:
-            raise AnalysisError(f"recursion while building CFG of {f.qualname}")
-        if not sim.has_surgery():
-            continue
-        n_surgery += 1
-        results, npaths = sim.simulate()
         all_keys = set(fps) | set(sp)
-        for r in results:
-            if r["unknown_exclude"]:
-                raise AnalysisError(f"{f.where}: cannot evaluate an exclude= set statically (unclassified cache surgery)")
-            carried = {(w[0], w[1]) for w in r["carried"]}
-            if carried:
-                survivors = (all_keys - r["dropped"]) if r["alive_all"] else {k for k in r["alive"] if k != "*"}
-                for k in sorted(survivors):
-                    if k in r["stored"]:
-                        run.instance("R2", f.where, f"`{k}` re-assigned by the function on the path writing {sorted(carried)}", True)
-                        continue
-                    fp = footprint(k)
-                    if fp is None:
-                        run.instance("R2", f.where, f"`{k}` kept but no producer of that name exists (dead key)", True, nontrivial=False)
-                        continue
-                    for (d, kind) in sorted(carried):
-                        deps = {t for (x, t) in fp if x == d or x == "*" or d == "*"}
-                        if not deps:
-                            run.instance("R2", f.where, f"`{k}` does not read `{d}`", True)
-                            continue
-                        if deps == {"shape"} and kind in COUNT_PRESERVING:
-                            run.instance("R2", f.where, f"`{k}` reads only the size of `{d}`; the {kind} write preserves it", True)
-                            continue
-                        if (k, d, kind) in INVARIANCE:
-                            run.instance("R2", f.where, f"`{k}` vs {d}:{kind}: {INVARIANCE[(k, d, kind)]}", True)
-                            continue
-                        if _translation_only_ok(f, k, d, kind):
-                            run.instance("R2", f.where, f"`{k}` kept across {d}:{kind} only when the linear part is the identity or the key is absent", True)
-                            continue
-                        run.instance("R2", f.where, f"`{k}` survives the write of `{d}` ({kind})", False)
-                        site = next((w[2] for w in r["carried"] if w[0] == d), "")
-                        run.violation("R2", f.where,
-                                      f"memo `{k}` (reads {sorted(t for x, t in fp if x == d or x == '*')} of `{d}`) survives `{site}` "
-                                      f"[{kind}] and is re-certified for the new data hash: a value read before the mutation is served after it",
-                                      key=key_of("C01-R2", f.qualname, k, d, kind))
-                # companions
-                for k, prod in companions.items():
-                    if prod in survivors and k not in survivors and k not in r["stored"]:
-                        run.instance("R6", f.where, f"`{prod}` kept but its by-product `{k}` dropped", False)
-                        run.violation("R6", f.where,
-                                      f"`{prod}` is kept while `{k}` (stored only as its by-product) is dropped: the `{k}` getter then returns None",
-                                      key=key_of("C01-R6", f.qualname, prod, k))
-            for (k, written, text) in sorted(r["stale_reads"]):
-                if k == "*":
-                    continue
-                fp = footprint(k)
-                if fp is None:
-                    continue
-                dep = {x for (x, t) in fp if x in written or x == "*"}
-                if not dep:
-                    continue
-                run.instance("R2b", f.where, f"`{k}` read under the lock after `{sorted(dep)}` was written (at `{text}`)", False)
-                run.violation("R2b", f.where,
-                              f"memo `{k}` (depends on {sorted(dep)}) may be served stale at `{text}`: verification is suspended by the "
-                              f"cache lock and {sorted(written)} was already written inside it",
-                              key=key_of("C01-R2b", f.qualname, k))
+        done = check_surgery(run, ef, f, cls if f.cls is not None else None, owner, hashed_data, rhs_kind, footprint, all_keys,
+                             INVARIANCE, companions, _translation_only_ok, "C01", transport_ok=TRANSPORT)
+        if done:
+            n_surgery += 1
     run.floor("Trimesh-family surgery functions", n_surgery, 4)
 
     # ------------------------------------------------------------------ R7 raw reads of memo dicts, repo-wide
